@@ -246,7 +246,7 @@ recv(PROFILES + ":ResultStatusesIqProtocolEntity",
      owner="profiles", module="profiles", route="reply", request="GetStatusesIqProtocolEntity",
      notes="the parser keys a dict by jid, so every <user> slot draws from a disjoint jid range (no repeated jid in one reply)")
 send(PROFILES + ":GetStatusesIqProtocolEntity", [LIST(JID, 1, 4)], {"_id": OPT(ID)}, owner="profiles", module="profiles", route="app")
-send(PROFILES + ":SetStatusIqProtocolEntity", [ONEOF(TEXTDATA, TEXT)], {"_id": OPT(ID)}, owner="profiles", module="profiles",
+send(PROFILES + ":SetStatusIqProtocolEntity", [ONEOF(TEXTDATA, TEXT, TEXTDATA0)], {"_id": OPT(ID)}, owner="profiles", module="profiles",
      route="app", notes="bytes is the documented form; the command line client still passes str (converted as Latin-1). "
                         "Answered by a plain ResultIqProtocolEntity")
 
